@@ -17,7 +17,7 @@ from vmon.libutil import load_definition, monitored
 
 LEVEL = "exploration"
 SHARDS = {"quick": 16, "thorough": 16}
-MUST = ["graph.walks", "graph.identity_checks", "graph.inheritor_checks", "corrupt.reject-expected", "corrupt.accept-expected",
+MUST = ["graph.walks", "graph.entry_kind_checks", "valid.parameter_and_container_share_a_name", "kind.repoint-to-other-kind", "graph.identity_checks", "graph.inheritor_checks", "corrupt.reject-expected", "corrupt.accept-expected",
         "kind.rename-typeref", "kind.rename-paramref", "kind.rename-containerref", "kind.rename-baseref", "kind.dup-type", "kind.dup-param",
         "kind.dup-container-changed", "kind.delete-referenced", "kind.delete-unreferenced", "kind.base-cycle", "kind.nesting-cycle",
         "kind.self-base", "kind.self-nesting", "kind.repoint"]
@@ -94,6 +94,15 @@ def check_graph(ctx, defn, tag, doc=None):
         want_c = {c.name for c in doc.containers}
         if set(conts) != want_c:
             probs.append(("graph/containers-set", f"registered containers {sorted(conts)} != document's {sorted(want_c)}"))
+        # every entry refers to an object of the KIND the document names (a parameter and a container may share a name)
+        for c in doc.containers:
+            lc = conts.get(c.name)
+            if lc is None:
+                continue
+            got_k = [("p" if isinstance(e, PM.Parameter) else "c" if isinstance(e, SC.SequenceContainer) else "?", getattr(e, "name", "?")) for e in lc.entry_list]
+            ctx.count("graph.entry_kind_checks", len(got_k))
+            if got_k != list(c.entries):
+                probs.append(("graph/entry-kinds", f"entry list of {c.name} is {got_k[:8]}, the document lists {list(c.entries)[:8]}"))
     return probs
 
 
@@ -148,19 +157,39 @@ def corruptions(root, doc, rng, limit):
                 tgt = find_all(cs.children[ci], "EntryList")[0].children[ei]
                 tgt.attrs["parameterRef"] = rng.choice([p.attrs["name"] for p in ps.children])
                 out.append(("repoint", "ParameterRefEntry", True, "accept", r))
+                # ... and at an existing name of another kind (a container / a parameter type): still no parameter of that name
+                cnames = [c_.attrs["name"] for c_ in cs.children if c_.attrs["name"] not in {p.attrs["name"] for p in ps.children}]
+                if cnames:
+                    r, pts, ps, cs = fresh()
+                    tgt = find_all(cs.children[ci], "EntryList")[0].children[ei]
+                    tgt.attrs["parameterRef"] = cnames[ei % len(cnames)]      # may be a container defined earlier or later
+                    out.append(("repoint-to-other-kind", "ParameterRefEntry->container-name", True, "reject", r))
             else:
                 tgt.attrs["containerRef"] = "NoSuchContainer"
                 out.append(("rename-containerref", "ContainerRefEntry", True, "reject", r))
+                pnames = [p.attrs["name"] for p in ps.children if p.attrs["name"] not in {c_.attrs["name"] for c_ in cs.children}]
+                r, pts, ps, cs = fresh()
+                tgt = find_all(cs.children[ci], "EntryList")[0].children[ei]
+                tgt.attrs["containerRef"] = pnames[ei % len(pnames)]
+                out.append(("repoint-to-other-kind", "ContainerRefEntry->parameter-name", True, "reject", r))
         bc = find_all(c, "BaseContainer")
         if bc:
             r, pts, ps, cs = fresh()
             find_all(cs.children[ci], "BaseContainer")[0].attrs["containerRef"] = "NoSuchBase"
             out.append(("rename-baseref", "BaseContainer", True, "reject", r))
+            r, pts, ps, cs = fresh()
+            find_all(cs.children[ci], "BaseContainer")[0].attrs["containerRef"] = ps.children[ci % len(ps.children)].attrs["name"]
+            out.append(("repoint-to-other-kind", "BaseContainer->parameter-name", True, "reject", r))
     # ---- duplicates ----------------------------------------------------------------------------------------------------
     for i, t in enumerate(pts0.children):
         r, pts, ps, cs = fresh()
         pts.children.insert(rng.randrange(len(pts.children) + 1), copy.deepcopy(pts.children[i]))
         out.append(("dup-type", t.tag, t.attrs["name"] in used_types, "reject", r))
+        # the same NAME defined a second time as a type of another kind (names are unique per set, not per element tag)
+        r, pts, ps, cs = fresh()
+        other = ir.PType(t.attrs["name"], "float", ir.FloatEnc(32)) if t.tag != "FloatParameterType" else ir.PType(t.attrs["name"], "integer", ir.IntEnc(16))
+        pts.children.insert(rng.randrange(len(pts.children) + 1), render.type_el(other, render.Opts()))
+        out.append(("dup-type-other-kind", t.tag, t.attrs["name"] in used_types, "reject", r))
     for i, p in enumerate(ps0.children):
         r, pts, ps, cs = fresh()
         ps.children.append(copy.deepcopy(ps.children[i]))
@@ -275,6 +304,17 @@ def run(ctx):
         # add one unreferenced parameter + type so that benign deletions exist
         doc = ir.Doc(doc.types + (ir.PType("UNUSED_Type", "integer", ir.IntEnc(8)), ir.PType("UNUSED2_Type", "integer", ir.IntEnc(5))),
                      doc.params + (ir.Param("UNUSED", "UNUSED_Type"),), doc.containers, doc.root, doc.system_name, doc.date)
+        if i % 3 == 0:
+            # names are per kind: rename one nested container to the name of a parameter (a legal document)
+            nested = sorted({n for c in doc.containers for k, n in c.entries if k == "c"})
+            pn = [p.name for p in doc.params[7:] if p.name not in {c.name for c in doc.containers}]
+            if nested and pn:
+                old_n, new_n = nested[0], pn[i % len(pn)]
+                ren = lambda n: new_n if n == old_n else n
+                doc = ir.Doc(doc.types, doc.params, tuple(ir.Container(ren(c.name), tuple((k, ren(n) if k == "c" else n) for k, n in c.entries),
+                                                                     ren(c.base) if c.base else c.base, c.criteria, c.abstract, c.short, c.long)
+                                                        for c in doc.containers), doc.root, doc.system_name, doc.date)
+                ctx.count("valid.parameter_and_container_share_a_name")
         root = render.doc_el(doc, render.Opts(explicit=None, rng=rng))
         style = styles[i % 3]
         pfx = style[1] if style[0] == "prefix" else None
